@@ -116,6 +116,8 @@ func runC09(c *Ctx, r *Report) {
 			"fromMultihash does not select as heads exactly the fetched entries whose hash equals a manifest head (selection at "+bad+" is not guarded by that equality): the rebuilt log starts from other heads than the published ones")
 	}
 	r.Doc("R-C09.9", "loaders and constructors examine every error result (manifest read, manifest decode, codec construction) before going on")
+	r.Doc("R-C09.18", "a loader hands on what the fetcher delivered (adopted from C10: a filter between the walk and the log — entries whose log id is not the manifest's — silently returns a truncated log for one that was loaded under a new id and continued)")
+	importRules(c, r, "C10", []string{"R-C10.13"}, "R-C09.18")
 	r.Doc("R-C09.10", "the loops that publish the heads, select the loaded heads and queue links process every element")
 	loopsComplete(c, r, "R-C09.10", func(fn *Fn) bool {
 		return rootNamed(fn, "ToJSONLog", "entrySliceToCids", "fromMultihash", "fromEntryHash", "fromJSON", "fromEntry", "NewFromMultihash", "addHashesToQueue", "addNextEntry", "NewOrderedMapFromEntries")
